@@ -61,6 +61,7 @@ def as_block(n):
 
 _V4_RUN = re.compile(r"[A-Za-z0-9.]+")
 _V6_RUN = re.compile(r"[A-Za-z0-9:]+")
+_V6X_RUN = re.compile(r"[A-Za-z0-9:.]+")
 
 
 def v4_token_value(tok):
@@ -80,7 +81,8 @@ def v4_token_value(tok):
 
 
 def v4_tokens(line):
-    """[(start, end, value)] of standalone IPv4 address tokens."""
+    """[(start, end, value)] of standalone IPv4 address tokens: maximal runs of ASCII letters,
+    digits and '.' that are exactly four all-digit parts, each <= 255 (leading zeros allowed)."""
     out = []
     for m in _V4_RUN.finditer(line):
         v = v4_token_value(m.group(0))
@@ -90,44 +92,56 @@ def v4_tokens(line):
 
 
 def v6_value(text):
+    """Integer value if text is a valid IPv6 address literal (no zone, no prefix length)."""
+    if ":" not in text or "%" in text or "/" in text:
+        return None
     try:
-        if "%" in text or "/" in text:
-            return None
         return int(ipaddress.IPv6Address(text))
     except (ipaddress.AddressValueError, ValueError):
         return None
 
 
+_V4_TAIL = re.compile(r"\.[A-Za-z0-9.]*")
+
+
 def v6_tokens(line):
     """[(start, end, value)] of standalone IPv6 address tokens.
 
-    Token = maximal run of ASCII letters, digits and ':'; extended over a following dotted tail
-    when the extended run is a valid IPv4-embedded IPv6 address."""
+    A token is a maximal run R of ASCII letters, digits and ':' (so '.' delimits on the left
+    like any other punctuation).  If R is followed by a dotted tail T (maximal run of letters,
+    digits and '.'), and R+T is a valid IPv4-embedded IPv6 address not glued to a further ':',
+    the token is R+T; otherwise the token is R if R alone is a valid address."""
     out = []
     pos = 0
     while True:
         m = _V6_RUN.search(line, pos)
         if m is None:
-            break
+            return out
         s, e = m.start(), m.end()
-        tok = m.group(0)
         pos = e
-        if ":" not in tok:
+        r = m.group(0)
+        if ":" not in r:
             continue
-        # dotted-tail extension: the run continues with ".d.d.d" (letters/digits/dots)
-        m2 = re.compile(r"[A-Za-z0-9.]+").match(line, e)
-        if m2 is not None and m2.group(0).startswith("."):
-            ext_end = m2.end()
-            # the extended token must itself be delimited (next char not ':' / alnum)
-            if ext_end >= len(line) or not re.match(r"[A-Za-z0-9:.]", line[ext_end]):
-                v = v6_value(line[s:ext_end])
+        mt = _V4_TAIL.match(line, e)
+        if mt is not None:
+            ee = mt.end()
+            if not (ee < len(line) and line[ee] == ":"):
+                v = v6_value(line[s:ee])
                 if v is not None:
-                    out.append((s, ext_end, v))
-                    pos = ext_end
+                    out.append((s, ee, v))
+                    pos = ee
                     continue
-            # has a dotted continuation that is not part of a valid address: not standalone
-            continue
-        v = v6_value(tok)
+        v = v6_value(r)
         if v is not None:
             out.append((s, e, v))
-    return out
+
+
+def substitute(line, tokens, render):
+    """Replace each (start, end, value) token by render(value, original_text)."""
+    out, pos = [], 0
+    for s, e, v in tokens:
+        out.append(line[pos:s])
+        out.append(render(v, line[s:e]))
+        pos = e
+    out.append(line[pos:])
+    return "".join(out)
